@@ -293,3 +293,9 @@ PROPS["C12"]["claim"] = ("TOTALITY PROVED AT BYTE LEVEL for both parsers, for ev
     "statement loop ends. ") + PROPS["C12"]["claim"]
 PROPS["C15"]["claim"] += (" The byte-level parser is TOTAL for every byte string (depfile_parse_total): entries or a parse error, never an "
     "out-of-bounds read, a wrapped counter or a non-advancing loop.")
+
+PROPS["C06"]["claim"] += (" TERMINATION of Work::run (run_loops_terminate, Lemmas/SchedTerm): in both phases the loops never end because the "
+    "model's fuel ran out; each continuing round moves a build forward (measure = sum of state codes, at most 6 per build), each start "
+    "and each ready-loop round consumes a build of a finite stock. The want phase's recursion bound is not covered. A REPORTED "
+    "DEPENDENCY CYCLE IS REAL (cycle_diagnostic_sound): the named files form a cycle of ordering edges returning to the first; "
+    "validation edges start a fresh stack.")
